@@ -812,6 +812,12 @@ class Interp(object):
         if getattr(base, 'table', None) is not None:
             ctx.oblige('%s: before the first data row is requested at most the header row has been pulled' % label,
                        k0 <= 1, self.where(node), 'pull')
+        for t in getattr(ctx, 'tables', []):
+            for other in getattr(t, 'iterators', []):
+                if other is not base and not getattr(other, 'pull_checked', False) and not getattr(other, 'looped', False):
+                    other.pull_checked = True
+                    ctx.oblige('%s: no other source iterator has been drained before the data loop (no materialisation)' % label,
+                               other.pos <= 1, self.where(node), 'pull')
         self.havoc(node, env, spec)
         ctx.assume(z3.And(k0 <= k, k <= base.n))
         base.pos = k
@@ -837,6 +843,7 @@ class Interp(object):
             raise PathEnd()
         else:
             base.exhausted_seen = True
+            base.looped = True       # consumed row by row by a contracted loop (not materialised)
             # after the loop the trace is  pre ++ concat_k delta(S[k])  (meta-theorem); post-loop yields go to a new
             # segment so that the harness can state obligations on them separately
             ctx.pre_loop_out = pre_out
